@@ -5,6 +5,7 @@
  * See DESIGN.md section 2.5 and section 3 (C01, C04, C05, C20). */
 #include "pipex.h"
 #include "seqx.h"
+#include "simfd.h"
 
 #include "upipe-modules/upipe_idem.h"
 #include "upipe-modules/upipe_dup.h"
@@ -24,6 +25,9 @@
 #include "upipe-modules/upipe_genaux.h"
 #include "upipe-modules/upipe_buffer.h"
 #include "upipe-modules/upipe_rate_limit.h"
+#include "upipe-ts/upipe_ts_sync.h"
+#include "upipe-ts/upipe_ts_check.h"
+#include "upipe-ts/upipe_ts_align.h"
 
 enum { O_C01 = 1, O_C04 = 2, O_C05 = 4, O_C20 = 8 };
 static int g_oracle = O_C01;
@@ -359,6 +363,32 @@ static int rd_get(struct side *s, char *o, size_t n)
 }
 static void rd_vs(int vi, char *o, size_t n) { vs_u64(rd_vals, vi, o, n); }
 
+/* TS packet size (ts_sync / ts_check) and sync count (last value is documented as invalid) */
+static const unsigned tsz_vals[] = {2, 3, 188};
+static int tsz_set(struct side *s, int vi) { return upipe_set_output_size(s->pipe, tsz_vals[vi]); }
+static void tsz_vs(int vi, char *o, size_t n) { snprintf(o, n, "%u", tsz_vals[vi]); }
+static const int tsy_vals[] = {2, 3, 1};
+static int tsy_set(struct side *s, int vi) { return upipe_ts_sync_set_sync(s->pipe, tsy_vals[vi]); }
+static int tsy_get(struct side *s, char *o, size_t n)
+{
+    int v = 12345;
+    int e = upipe_ts_sync_get_sync(s->pipe, &v);
+    snprintf(o, n, "%d", v);
+    return e;
+}
+static void tsy_vs(int vi, char *o, size_t n) { snprintf(o, n, "%d", tsy_vals[vi]); }
+
+/* queue sink: the pseudo-output (normally the transfer proxy of the queue source) */
+static int qo_set(struct side *s, int vi) { return upipe_set_output(s->pipe, vi == 0 ? NULL : &s->fx.sinks[2 + vi].upipe); }
+static int qo_get(struct side *s, char *o, size_t n)
+{
+    struct upipe *out = (struct upipe *)(uintptr_t)0x77;
+    int e = upipe_get_output(s->pipe, &out);
+    snprintf(o, n, "%s", out == NULL ? "null" : out == &s->fx.sinks[3].upipe ? "S3" : out == &s->fx.sinks[4].upipe ? "S4" : "other");
+    return e;
+}
+static void qo_vs(int vi, char *o, size_t n) { snprintf(o, n, "%s", vi == 0 ? "null" : vi == 1 ? "S3" : "S4"); }
+
 /* ------------------------------------------------------------------ */
 /* allocators                                                            */
 /* ------------------------------------------------------------------ */
@@ -380,6 +410,9 @@ ALLOC_VOID(time_limit, upipe_time_limit_mgr_alloc)
 ALLOC_VOID(genaux, upipe_genaux_mgr_alloc)
 ALLOC_VOID(buffer, upipe_buffer_mgr_alloc)
 ALLOC_VOID(rate_limit, upipe_rate_limit_mgr_alloc)
+ALLOC_VOID(ts_sync, upipe_ts_sync_mgr_alloc)
+ALLOC_VOID(ts_check, upipe_ts_check_mgr_alloc)
+ALLOC_VOID(ts_align, upipe_ts_align_mgr_alloc)
 
 static int g_qlen = 1;
 static struct upipe *alloc_qsink(struct side *s)
@@ -520,11 +553,16 @@ static const struct row rows[] = {
     {.name = "rate_limit", .kind = K_HOLD, .alloc = alloc_rate_limit, .expect = exp_identity, .uses_pumps = true, .out_def_prefix = "block.",
      .nopts = 2, .opt = {{"limit", 3, rl_set, rl_get, rl_vs, "18446744073709551615"}, {"duration", 3, rd_set, rd_get, rd_vs, "27000000"}}},
     {.name = "qsink", .kind = K_HOLD, .alloc = alloc_qsink, .expect = exp_identity, .has_flush = true, .uses_pumps = true, .flowdef_in_band = true,
-     .out_def_prefix = "block.", .nopts = 1, .opt = {{"max_length", 3, ml_set, ml_get, ml_vs, "0"}}},
+     .out_def_prefix = "block.", .nopts = 2, .opt = {{"max_length", 3, ml_set, ml_get, ml_vs, "0"}, {"pseudo_output", 3, qo_set, qo_get, qo_vs, "null"}}},
     {.name = "agg", .kind = K_RECHUNK, .alloc = alloc_agg, .bad_def = "pic.", .out_def_prefix = "block.",
      .nopts = 1, .opt = {{"output_size", 3, osz_set, osz_get, osz_vs, "1316"}}},
     {.name = "chunk", .kind = K_RECHUNK, .alloc = alloc_chunk, .bad_def = "pic.", .out_def_prefix = "block.",
      .nopts = 1, .opt = {{"mtu", 4, cs_set, cs_get, cs_vs, "1460/4"}}},
+    {.name = "ts_sync", .kind = K_RECHUNK, .alloc = alloc_ts_sync, .bad_def = "pic.", .out_def_prefix = "block.mpegts.",
+     .nopts = 2, .opt = {{"output_size", 3, tsz_set, osz_get, tsz_vs, "188"}, {"sync", 3, tsy_set, tsy_get, tsy_vs, "2"}}},
+    {.name = "ts_check", .kind = K_RECHUNK, .alloc = alloc_ts_check, .bad_def = "pic.", .out_def_prefix = "block.mpegts.",
+     .nopts = 1, .opt = {{"output_size", 3, tsz_set, osz_get, tsz_vs, "188"}}},
+    {.name = "ts_align", .kind = K_RECHUNK, .alloc = alloc_ts_align, .bad_def = "pic.", .out_def_prefix = "block.mpegts."},
 };
 #define NROWS ((int)(sizeof(rows) / sizeof(rows[0])))
 
@@ -619,6 +657,7 @@ static void side_init(struct st *st, struct side *s, bool with_getters)
 
 static void *init(void)
 {
+    simfd_reset();
     pxm_begin();
     struct st *st = calloc(1, sizeof(*st));
     st->two = (g_oracle & O_C20) != 0;
